@@ -81,12 +81,17 @@ def main():
             if rec.get('status', '').startswith('confirmed') or name.startswith('rev-'):
                 if name.startswith('rev-') and 'status' not in rec:
                     sh(['git', 'apply', os.path.abspath(os.path.join(seed, 'patch.diff'))], cwd=wt)
-                for p in allprops:
-                    env = dict(os.environ, XZVERIFY_REPO=wt, XZVERIFY_HOME=home)
-                    rcx, outx = sh(['/verif/bin/xzverify', 'check', p], env=env)
-                    if rcx != 0:
-                        rules = sorted(set(re.findall(r'^(?:FAIL|UNDECIDED) (\S+) (\S+)', outx, re.M)))
-                        fired[p] = [f'{a} {b}' for a, b in rules][:8]
+                from concurrent.futures import ThreadPoolExecutor
+                def one(p):
+                    h = os.path.join(base, 'home-' + p); os.makedirs(h + '/evidence', exist_ok=True)
+                    shutil.copy('/verif/known_findings.txt', h)
+                    env = dict(os.environ, XZVERIFY_REPO=wt, XZVERIFY_HOME=h)
+                    return p, sh(['/verif/bin/xzverify', 'check', p], env=env)
+                with ThreadPoolExecutor(9) as ex:
+                    for p, (rcx, outx) in ex.map(one, allprops):
+                        if rcx != 0:
+                            rules = sorted(set(re.findall(r'^(?:FAIL|UNDECIDED) (\S+) (\S+)', outx, re.M)))
+                            fired[p] = [f'{a} {b}' for a, b in rules][:8]
             rec['caught_by'] = fired
             own = meta.get('property')
             rec['caught_by_own_property'] = bool(own and own in fired)
